@@ -186,8 +186,10 @@ def run_suite(tier, seed):
     else:
         with cf.ProcessPoolExecutor(max_workers=min(14, len(cfgs))) as ex:
             results = list(ex.map(_one, cfgs))
-        with open(path, "w") as f:
+        tmp = "%s.%d.tmp" % (path, os.getpid())          # (several checks may run side by side: the cache appears atomically)
+        with open(tmp, "w") as f:
             json.dump(results, f)
+        os.replace(tmp, path)
     traces = [r[0] for r in results]
     reached, res = T.validate("KWN_Trace", ["CONSTANTS", '  RefreshMode = "%s"' % REFRESH_MODE], traces, "kwn_tr", timeout=3000, heap="8g")
     if res.violated or reached is None:
